@@ -370,6 +370,42 @@ fn api_totality(src: &mut Src, st: &mut Stats, _env: &Env) -> CaseResult {
     if let Err(p) = r {
         return Err(Failure::new("api-totality", "panic", format!("search through Expression::new panicked: {}", p), json!({"label": label, "tree_of": text})));
     }
+    // 3. user-declared signatures of every shape (no fixed parameter at all, only a variadic
+    //    tail, nested typed arrays, unions) called with any number and kind of arguments
+    {
+        use jmespath::functions::{ArgumentType, CustomFunction, Signature};
+        use jmespath::{Context, Rcvar, Runtime, Variable};
+        let ty = |src: &mut Src| -> ArgumentType {
+            match src.below(8) {
+                0 => ArgumentType::Any,
+                1 => ArgumentType::Number,
+                2 => ArgumentType::String,
+                3 => ArgumentType::Array,
+                4 => ArgumentType::Expref,
+                5 => ArgumentType::TypedArray(Box::new(ArgumentType::Number)),
+                6 => ArgumentType::Union(vec![ArgumentType::Null, ArgumentType::TypedArray(Box::new(ArgumentType::Any))]),
+                _ => ArgumentType::Union(vec![]),
+            }
+        };
+        let n_in = src.below(4);
+        let inputs: Vec<ArgumentType> = (0..n_in).map(|_| ty(src)).collect();
+        let variadic = if src.flip() { Some(ty(src)) } else { None };
+        let n_args = src.below(6);
+        let args: Vec<&str> = (0..n_args).map(|_| *src.pick(&["`1`", "'s'", "xs", "&a", "a", "`null`", "`[[1], [2]]`", "`[1, \"x\"]`", "@"])).collect();
+        let call = format!("f({})", args.join(", "));
+        let desc = format!("{} inputs, variadic {}, call {}", n_in, variadic.is_some(), call);
+        let r = catch(std::panic::AssertUnwindSafe(move || {
+            let mut rt = Runtime::new();
+            rt.register_builtin_functions();
+            rt.register_function("f", Box::new(CustomFunction::new(Signature::new(inputs, variadic), Box::new(|a: &[Rcvar], _: &mut Context<'_>| Ok(Rcvar::new(Variable::Number(serde_json::Number::from(a.len() as u64))))))));
+            let e = rt.compile(&call).map(|c| c.search(Variable::from_json("{\"xs\":[1,2],\"a\":{\"b\":1}}").unwrap()).map(|v| v.to_string()).map_err(|e| e.to_string()));
+            format!("{:?}", e.map_err(|e| e.to_string()))
+        }));
+        if let Err(p) = r {
+            return Err(Failure::new("api-totality", "panic", format!("a call of a user-declared function panicked: {}", p), json!({"signature_and_call": desc})));
+        }
+        st.class("custom-signature-call");
+    }
     if !label.is_ascii() && st.nontrivial(&format!("{}|{}|{}", label, offset, text)) {
         st.sample(|| json!({"label": label, "offset": offset, "tree_of": text}));
     }
